@@ -224,10 +224,15 @@ func (a *addHandler) handleUpdate(ctx context.Context, logID string, origin stri
 // - followed by a [checkpoint][].
 func parseBody(r io.Reader) (uint64, [][]byte, []byte, error) {
 	b := bufio.NewReader(r)
-	sizeLine, _, err := b.ReadLine()
+	sizeLine, isPrefix, err := b.ReadLine()
 	if err != nil {
 		klog.Infof("read sizeline: %v", err)
 		return 0, nil, nil, err
+	}
+	if isPrefix {
+		// ReadLine returns a line that does not fit its buffer in pieces: such a line is neither an old-size line
+		// nor a proof line, and its pieces must not be taken for separate lines.
+		return 0, nil, nil, fmt.Errorf("old size line too long")
 	}
 	// The size line must be exactly "old <decimal>": Sscanf would also accept trailing garbage ("old 5x"),
 	// extra fields, other bases ("old 0x10") and digit separators.
@@ -243,10 +248,13 @@ func parseBody(r io.Reader) (uint64, [][]byte, []byte, error) {
 	}
 	proof := [][]byte{}
 	for {
-		l, _, err := b.ReadLine()
+		l, isPrefix, err := b.ReadLine()
 		if err != nil {
 			klog.Infof("read proofline: %v", err)
 			return 0, nil, nil, err
+		}
+		if isPrefix {
+			return 0, nil, nil, fmt.Errorf("proof line too long")
 		}
 		if len(l) == 0 {
 			break
